@@ -36,7 +36,8 @@ BlindLocalVecs ==
   Cross3(<< << 7, 4 >>, << 11, 4 >> >>, << -28800, 19800, 50400 >>, Range(1, Len(Midnights)), LAMBDA p, lo, k :
      [op |-> "Blind", fn |-> "CreateBlindedDestination", in |-> EncIdentity("key", p[1], p[2], k), st |-> p[1], idkey |-> [off |-> BlockLen - SigPubLen(p[1]), len |-> SigPubLen(p[1])],
       secret |-> Secrets[1], instants |-> InstSets[k], stream |-> k + 77, localoffset |-> lo])
-Vecs == EncVecs \o BlindVecs \o BlindLocalVecs
+CONSTANT Part      \* "all" | "encdec" (C01 and C06 replay the encrypt / decrypt histories only)
+Vecs == IF Part = "encdec" THEN EncVecs ELSE EncVecs \o BlindVecs \o BlindLocalVecs
 VARIABLE done
 Init == done = FALSE
 Next == ~done /\ ndJsonSerialize(OutFile, Vecs) /\ PrintT(<< "GENERATED", Len(Vecs) >>) /\ done' = TRUE
